@@ -12,10 +12,17 @@ EXTENDS Endpoint
 NOW == 1000000     \* Session1 does not advance time
 
 \* ---- absolute events ----
+\* A frame may carry a tail: a well-formed Logon numbered as expected that arrives in the same read() behind it.
+\* The reader loop stops decoding once the connection is disconnected and disconnect() drops the receive buffer,
+\* so the tail is processed only if the first frame left the connection up.
+TailOf(ev) == IF "tail" \in DOMAIN ev.f THEN ev.f.tail ELSE ""
+TailFrame(ep) == [Frame("LOGON", ep.nin) EXCEPT !.seq = ep.nin] @@ [hdr |-> "ok"]
 Handle(ep, ev, declined) ==
     CASE ev.t = "frame" ->
            IF ev.f.hdr = "badbs" \/ Disconnected(ep.cs) \/ ~ep.sock THEN Clr(ep)
-           ELSE Swallow(ProcessMessage(Clr(ep), ev.f, ev.now, declined, TRUE))
+           ELSE LET e1 == Swallow(ProcessMessage(Clr(ep), ev.f, ev.now, declined, TRUE)) IN
+                IF TailOf(ev) = "" \/ Disconnected(e1.cs) \/ ~e1.sock THEN e1
+                ELSE Swallow(ProcessMessage(e1, TailFrame(e1), ev.now, declined, TRUE))
       [] ev.t = "send" -> SendMsg(Clr(ep), ev.m, ev.up)
       [] ev.t = "eof" -> IF ep.sock THEN ReadEOF(Clr(ep), TRUE) ELSE Clr(ep)
       [] ev.t = "attach" -> Attach(Clr(ep), "KEEP")
@@ -36,7 +43,8 @@ ResolveFrame(ep, r) ==
               ELSE IF r.trid = "wrong" THEN "12345"                       \* numeric, below any pending id
               ELSE IF r.trid = "wronghi" THEN ToString(ep.treq + 1)          \* numeric, just above the pending id
               ELSE IF r.trid = "wrongtxt" THEN "abc" ELSE r.trid,
-     pay |-> IF r.kind = "APP" THEN "11=p" \o ToString(seq) ELSE "", text |-> FALSE, hdr |-> r.hdr]
+     pay |-> IF r.kind = "APP" THEN "11=p" \o ToString(seq) ELSE "", text |-> FALSE, hdr |-> r.hdr,
+     tail |-> IF "tail" \in DOMAIN r THEN r.tail ELSE ""]
 ResolveSend(ep, r) ==
     [kind |-> r.kind, seq |-> IF r.seqm = "none" THEN 0 ELSE ep.nout + r.seqv, pd |-> r.pd, gf |-> r.gf,
      newseq |-> IF r.kind = "SEQRESET" THEN ep.nout + r.seqv + 1 ELSE 0, b |-> 0, e |-> 0,
@@ -66,6 +74,11 @@ RelFrames ==
     \cup { [RF("SEQRESET", rel, FALSE) EXCEPT !.nm = "abs", !.nv = nv] : rel \in {0, 1}, nv \in {-1, 2} }
     \cup { RF("LOGON", rel, FALSE) : rel \in {0, 1} }
     \cup { RF("LOGOUT", rel, FALSE) : rel \in {0, 1} }
+    \* a Logon that lacks a field the acceptor copies into its reply (HeartBtInt 108 / EncryptMethod 98): the Logon
+    \* exchange does not complete, and what follows is still "before the Logon exchange has completed"
+    \cup { [RF("LOGON", rel, FALSE) EXCEPT !.hdr = h] : rel \in {0, 1}, h \in {"nohb", "noenc"} }
+    \* a frame that must end the connection, with a well-formed Logon behind it in the same read
+    \cup { [RF("APP", 0, FALSE) EXCEPT !.hdr = h] @@ [tail |-> "logon"] : h \in {"wrongT", "noseq"} }
     \cup { [RF("APP", 0, FALSE) EXCEPT !.hdr = h] :
              h \in {"nosender", "notarget", "swapped", "wrongS", "wrongT", "noseq", "badbs"} }
     \* the same integrity defects on every session-level kind (a defect must not be excused by the message type)
